@@ -249,11 +249,24 @@ def text_primitives(ctx, rule):
     ok = names == ["chars", "split"]
     rep.ob(rule, "split::sources", ok, "" if ok else "Val::split takes its pieces from %s; the exact primitives are str::split (non-empty delimiter) and str::chars (empty delimiter)" % names,
            sp.loc(), how="str::split / str::chars")
+    # what may stand between the pieces and the array: element-wise conversion and collection, by adaptor or by loop
+    FORBIDDEN = ("filter", "filter_map", "skip", "take", "rev", "step_by", "skip_while", "take_while", "dedup", "splitn", "rsplit", "rsplitn", "split_terminator", "rsplit_terminator",
+                 "split_whitespace", "split_ascii_whitespace", "split_inclusive", "trim", "trim_start", "trim_end", "trim_matches", "strip_prefix", "strip_suffix", "enumerate", "zip", "chunks",
+                 "pop", "pop_back", "pop_front", "remove", "truncate", "retain", "sort", "reverse", "last", "nth", "peekable", "to_lowercase", "to_uppercase", "replace")
+    used = sorted({t_["callee"].get("name") for b_ in F.with_closures(sp) for bi_, t_ in b_.calls() if "indirect" not in t_["callee"] and t_["callee"].get("name") in FORBIDDEN})
+    from ..flow import Labels
     for bi, t in srcs:
         nm = t["callee"].get("name")
-        good, bad, sink = _chain_between(sp, bi, ("map", "into_iter", "iter"), ("collect", "from_iter", "extend"))
+        lab = Labels(F, sp, {(sp.path, t["dest"]["l"]): {"pieces"}}, through_mut=True)
+        # the pieces reach the array that replaces the operand (Array::with_arr / a collection converted into the value)
+        reaches = False
+        for bi2, t2 in sp.calls():
+            if t2["callee"].get("name") in ("with_arr", "into", "from") and any("pieces" in lab.op_labels(sp, a) for a in t2["args"]):
+                reaches = True
+        good = reaches and not used
+        bad = used[0] if used else "nothing that builds the array"
         rep.ob(rule, "split::chain::" + str(nm), good, "" if good else "between %s and the array built from it stands %s: pieces are dropped, merged or altered" % (nm, bad), sp.loc(t["line"]),
-               how="%s -> map -> collect" % nm)
+               how="%s -> element-wise -> array" % nm)
         if nm == "split":
             # the pattern is the delimiter, on the non-empty branch
             dl = {p for d, p in kind_deep(sp, t["args"][1]) if d == ("param", 2)}
